@@ -265,7 +265,7 @@ def run(ctx):
         return
     R = Runner(ctx, h)
     rng = SplitMix(ctx.seed)
-    nprog = 20 if ctx.tier == "quick" else 400
+    nprog = 20 if ctx.tier == "quick" else 150
     if ctx.broken:
         nprog *= 10
     corpus = [json.loads(l) for l in open(os.path.join(ctx.pdir, "corpus.txt")) if l.strip() and not l.startswith("#")]
